@@ -7,8 +7,8 @@ PROPS["C04"] = dict(
                "fields have dedicated checks (C10, C11); IPv6 extension-header length and RFC 4884 fields are also covered by C05.",
     level_note="Trusted: argument generators keep values inside what the argument type can hold; pairs whose argument space is wider than the wire field are listed as in-range preconditions in harness/c04.cpp. "
                "A typed option is set at most once per program (a second add would sit behind the first match).",
-    phases=[dict(name="programs", harness="c04.cpp", flavor="asan", mode="main", cases=dict(quick=60000, thorough=3000000))],
+    phases=[dict(name="programs", harness="c04.cpp", flavor="asan", mode="main", cases=dict(quick=400000, thorough=6000000))],
     rule="case = (class, random program of setter calls); distinct = distinct program text; non-trivial: every program step is followed by getter, wire and re-serialization checks",
-    floors=dict(any={"distinct": 30000, "wire_checks": 200000, "getter_checks": 200000, "steps:option-setter": 50000, "steps:scalar-setter": 50000, "field:*": 20}),
+    floors=dict(any={"distinct": 200000, "wire_checks": 1000000, "getter_checks": 1000000, "steps:option-setter": 300000, "steps:scalar-setter": 300000, "field:*": 20}),
     assumptions=["x86-64 little-endian", "layers are serialized standalone (no parent): pseudo-header checksums are C05's business"],
 )
